@@ -42,7 +42,7 @@ PROPS["C15"] = {
 PROPS["C17"] = {
     "groups": [{"run": "^vpH_C17_backoff$", "args": ["-solver", "z3-new", "-timeout-ms", "30000"]},
                {"run": "^vpH_C17_(backoff_conc|breaker_step|T_retry|T_breaker_seq|T_round)$", "args": ["-solver", "z3-new"]}],
-    "bounds": {"quick": "CalculateBackoff: InitialBackoff, MaxBackoff in [0, 1 year], multiplier in [1, 10^6], jitter in [0,1], attempt any non-negative int (math.Pow uninterpreted: finite in [1,MaxFloat64] or +Inf); float64 = Real with relative rounding error 2^-53 per operation; plus exact evaluation for multipliers {1.1,2} x attempts {0,1,10,33,1100}. RetryWithBackoff: MaxAttempts 0..4 (0 bounded by 6 invocations), every outcome sequence over {nil, permanent, transient}, optional cancellation at a symbolic instant within 2 s, default backoff config. CircuitBreaker: one Call from an arbitrary reachable state (threshold 1..10^6, cooldown and elapsed time up to a year: an inductive step covering histories of any length) plus sequences of 2*threshold+2 calls for threshold 1..3 with symbolic gaps. Acquisition round: one round of 4 failing Creates."},
+    "bounds": {"quick": "CalculateBackoff: InitialBackoff, MaxBackoff in [0, 100 days] (exact int64->float64 conversion; the exact-evaluation harness goes to one year), multiplier in [1, 10^6], jitter in [0,1], attempt any non-negative int (math.Pow uninterpreted: finite in [1,MaxFloat64] or +Inf); float64 = Real with relative rounding error 2^-53 per operation; plus exact evaluation for multipliers {1.1,2} x attempts {0,1,10,33,1100}. RetryWithBackoff: MaxAttempts 0..4 (0 bounded by 6 invocations), every outcome sequence over {nil, permanent, transient}, optional cancellation at a symbolic instant within 2 s, default backoff config. CircuitBreaker: one Call from an arbitrary reachable state (threshold 1..10^6, cooldown and elapsed time up to a year: an inductive step covering histories of any length) plus sequences of 2*threshold+2 calls for threshold 1..3 with symbolic gaps. Acquisition round: one round of 4 failing Creates."},
     "outside": "durations above one year (float->int64 overflow at 2^63 ns); multipliers below 1; negative MaxAttempts; RetryWithBackoff with a CircuitBreaker attached",
     "assumptions": ["math.Pow(x,y): y=0 or x=1 gives 1, y=1 gives x, result >= x for x,y >= 1, finite results within [1, MaxFloat64]; the +Inf branch is explored for base >= 2, exponent >= 1024",
                     "rand.Float64() is an arbitrary real in [0,1); native replays of jitter-dependent counterexamples are repeated up to 300 times because the library's random source cannot be controlled",
@@ -51,7 +51,7 @@ PROPS["C17"] = {
     "level_note": "float64 arithmetic is modelled as real arithmetic with a relative rounding error per operation (full IEEE encoding does not finish); math.Pow is uninterpreted under the stated contract; trusted: front end, executor, z3.",
 }
 PROPS["C03"] = {
-    "groups": [{"run": "^vpH_C03_T_"}],
+    "groups": [{"run": "^vpH_C03_T_|^vpH_C08_T_causes$"}],
     "bounds": {"quick": "one real election (Start -> attemptAcquire -> becomeLeader -> heartbeatLoop, handleHeartbeatFailure, IsPermanentError) against the reference store; timing configurations (H,TTL) in {(1s,3s),(4s,12s)}, both error dialects (mock texts / nats.go values); request latency of every store operation symbolic in [0, time-out); the change (record replaced or deleted by another writer) or the beginning of the outage at a symbolic instant in [0, 2.5H]; during the outage each operation independently fails after a symbolic delay in [0,time-out] or never answers, applied or not; at most 7 store operations",
                "thorough": "as quick plus (H,TTL)=(200ms,10s) (time-out = 5H) with the outage beginning in [0, 2.5H + time-out]"},
     "outside": "more than ~3 heartbeats before the fault (the failure counter is reset by every success, so longer histories repeat explored shapes: stated, not proved); scheduling latency; expiry of the record underneath a leader whose refreshes succeed (cannot happen: TTL >= 3H)",
@@ -85,7 +85,7 @@ PROPS["C04"] = {
     "level_note": "JSON over-approximation (sound for these safety obligations); one validation call per path; reductions R1/R2.",
 }
 PROPS["C10"] = {
-    "groups": [{"run": "^vpH_C10_T_"}],
+    "groups": [{"run": "^vpH_C10_T_|^vpH_C08_T_causes$"}],
     "bounds": {"quick": "safety: a candidate with symbolic priority (0..1000) and takeover flag (valid configurations) next to a live record of another instance with symbolic stored priority, or arbitrary bytes; optionally a third party replaces the record (symbolic priority) at ANY store-operation leg of the candidate; start attempt, watcher start and first acquisition round (300ms); audit of the complete store log. Promptness: higher-priority candidate started at a symbolic instant within one heartbeat next to an incumbent heartbeating every H=1s, store latency zero"},
     "outside": "more than one interfering write; latencies above zero in the promptness scenario; 3-5 real instances (other instances are the environment, see DESIGN section 3)",
     "assumptions": [],
@@ -109,7 +109,7 @@ PROPS["C09"] = {
     "level_note": "Reductions R1/R2 (a stop between two atomics of one critical section is not explored); bounded windows as listed.",
 }
 PROPS["C08"] = {
-    "groups": [{"run": "^vpH_C08_T_"}],
+    "groups": [{"run": "^vpH_C08_T_|^vpH_C01_T_stop_delete$|^vpH_C09_T_stop_after_cancel$"}],
     "bounds": {"quick": "one real instance, H=1s, elected directly or through the follower path (watcher running), promotion callback returning at once or blocking on its context; first term ended by each cause: record replaced (heartbeat conflict), record deleted, three failing refreshes, record taken by a later incarnation while refreshes hang (periodic validation), health threshold, preemption observed through the watcher before the next heartbeat, Stop, StopWithContext{WaitForDemote}, StopWithContext{DeleteKey,WaitForDemote}; then (unless stopped) the blocking record is removed, the instance leads a second term through the real follower path and is stopped; heartbeat and validation tickers coinciding (two causes in one tick); audits at every quiescent point"},
     "outside": "connection-loss and reconnect-verification demotions (C11 harnesses); more than two terms; callbacks that never return without cancellation",
     "assumptions": ["leadership edges are observed inside the Metrics.SetIsLeader callback, i.e. at the flag change itself"],
@@ -125,7 +125,7 @@ PROPS["C19"] = {
     "level_note": "as C08",
 }
 PROPS["C02"] = {
-    "groups": [{"run": "^vpH_C02_T_|^vpH_C07_T_leftover$|^vpH_C09_T_stop_(leader|slow_create)$"}],
+    "groups": [{"run": "^vpH_C02_T_|^vpH_C07_T_leftover$|^vpH_C09_T_stop_(leader|slow_create|window)$"}],
     "bounds": {"quick": "TTL margin: H symbolic in [100ms,10s], TTL symbolic in [3H,3H+2s], every store latency symbolic below H/2, three heartbeats, at most 5 store operations: the record replaced by each refresh was still live. Churn: one real instance (H=1s, TTL=3s) next to a protocol-conforming environment ('the others': creates the record when vacant, refreshes / deletes only its own), Stop / StopWithContext{DeleteKey} / {DeleteKey,WaitForDemote} and optional restart placed by the explorer at every store-visible point within 2H, one environment action at every store-visible point within 3H; plus the C07 vacancy scenario and the C09 stop-of-a-leader and slow-Create scenarios; the claim (IsLeader => live record names the instance and carries its token) is checked inside the Metrics.SetIsLeader callback at every flag change and at the end"},
     "outside": "latencies of H/2 and above; preemption (excluded by the statement); more than one environment action per run; 'at most one leader' is the corollary of per-instance claim-backing (a record names one instance) stated in DESIGN section 3, not a two-real-instance exploration",
     "assumptions": ["other instances are represented by the environment thread obeying the protocol (assume-guarantee, DESIGN section 3)"],
@@ -141,7 +141,7 @@ PROPS["C01"] = {
     "level_note": "Relative to the reference store; bounded families; reductions R1/R2.",
 }
 PROPS["C05"] = {
-    "groups": [{"run": "^vpH_C05_T_|^vpH_C08_T_causes$|^vpH_C01_T_preempted$|^vpH_C07_T_leftover$"}],
+    "groups": [{"run": "^vpH_C05_T_|^vpH_C08_T_causes$|^vpH_C01_T_preempted$|^vpH_C07_T_leftover$|^vpH_C03_T_changed$"}],
     "bounds": {"quick": "three terms of one takeover-enabled instance (preemption of a lower-priority owner; Create after being preempted, with the preemptor leaving either after 1.5 heartbeats or within the same heartbeat interval; restart), plus the C08 family (two terms, every cause of term end), the C01 preemption family and the C07 vacancy family; over the store's complete version log: the token of every acquisition by the instance never appeared before, every refresh repeats the token and identity of the version it replaces; the OnPromote argument and Token()/Status().Token at quiescent points equal the record's token"},
     "outside": "uniqueness across instances rests on the UUID assumption (uuid.New() modelled as pairwise distinct fresh strings); more than three terms",
     "assumptions": ["uuid.New().String() returns a value distinct from every earlier one"],
@@ -149,7 +149,7 @@ PROPS["C05"] = {
     "level_note": "UUID uniqueness assumed; bounded families; reductions R1/R2.",
 }
 PROPS["C18"] = {
-    "groups": [{"run": "^vpH_C18_T_|^vpH_C08_T_|^vpH_C09_T_stop_(leader|slow_create|twice)$|^vpH_C07_T_stale_events$"}],
+    "groups": [{"run": "^vpH_C18_T_|^vpH_C08_T_|^vpH_C09_T_stop_(leader|slow_create|twice|window|after_cancel)$|^vpH_C07_T_stale_events$"}],
     "bounds": {"quick": "Status() is evaluated at every quiescent point of the C08 family (every cause of term end, two terms, recording Metrics) and after the return of every stop of the C09 stop-of-a-leader / slow-Create / repeated-stop scenarios: IsLeader <=> State == LEADER, State in the documented set, a leader's LeaderID / Token / Revision equal its id, its term token and the revision of its latest successful write in the store, STOPPED with IsLeader false after a stop, last SetIsLeader value == IsLeader(), IncTransitions calls form a chain starting at CANDIDATE; follower harness: LeaderID converges to the id in the live record across a change of owner, with watch events delivered or lost"},
     "outside": "snapshots taken in the middle of a transition (Status() holds the read lock; torn reads of several atomics by lock-free readers are not explored, reduction R1)",
     "assumptions": [],
